@@ -435,6 +435,10 @@ impl RLBuilder {
         // Add a new block if there is not enough space for the run in the current block.
         let units_needed = Self::code_len(self.run.0 - self.tail()) + Self::code_len(self.run.1 - 1);
         if self.data.len() + units_needed > self.blocks() * RLVector::BLOCK_SIZE {
+            #[cfg(feature = "verif-probes")]
+            crate::verif::hit(if self.blocks() == 0 { crate::verif::probe::RL_FLUSH_FIRST_BLOCK }
+                else if self.data.len() < self.blocks() * RLVector::BLOCK_SIZE { crate::verif::probe::RL_FLUSH_NEW_BLOCK_PADDED }
+                else { crate::verif::probe::RL_FLUSH_NEW_BLOCK_EXACT });
             self.data.resize(self.blocks() * RLVector::BLOCK_SIZE, 0);
             let sample = (self.ones - self.run.1, self.tail);
             self.samples.push(sample);
@@ -449,6 +453,8 @@ impl RLBuilder {
 
     // Encodes the given value.
     fn encode(&mut self, value: usize) {
+        #[cfg(feature = "verif-probes")]
+        crate::verif::note(crate::verif::set::RL_CODE_UNITS, Self::code_len(value));
         let mut value = value as u64;
         while value > RLVector::CODE_MASK {
             self.data.push((value & RLVector::CODE_MASK) | RLVector::CODE_FLAG);
@@ -608,6 +614,8 @@ impl<'a> RunIter<'a> {
                 }
                 return None;
             }
+            #[cfg(feature = "verif-probes")]
+            crate::verif::hit(crate::verif::probe::RL_ITER_CROSS_BLOCK);
             limit = self.parent.ones_after(block);
         }
 
